@@ -513,17 +513,44 @@ def d5_translations(ctx, idx):
         if tr is not None:
             order = [lib.handler_class_names(h) for h in tr.handlers]
             flat = [x[0] for x in order]
-            if 'StudentFacingError' in flat and 'Exception' in flat:
-                sf = tr.handlers[flat.index('StudentFacingError')]
-                bare = len(sf.body) == 1 and isinstance(sf.body[0], ast.Raise) and sf.body[0].exc is None
-                r.check(flat.index('StudentFacingError') < flat.index('Exception') and bare,
-                        'MathExpression.eval_function: except StudentFacingError', 're-raised unchanged before the catch-all',
-                        'student-facing errors raised by a function are %s' % (
-                            'caught by the catch-all first and recast as FunctionEvalError' if flat.index('StudentFacingError') > flat.index('Exception')
-                            else 'not re-raised unchanged'), lib.loc(fi, sf))
+            # a StudentFacingError raised by the function must escape unchanged: the first handler that catches it
+            # (its own clause, or a merged catch-all that dispatches with isinstance) re-raises it as it is
+            sfh = None
+            for cand in tr.handlers:
+                names = lib.handler_class_names(cand)
+                if any(n == 'StudentFacingError' or n in ('Exception', 'BaseException', 'MITxError') for n in names):
+                    sfh = cand
+                    break
+            construct = 'MathExpression.eval_function: except StudentFacingError'
+            if sfh is None:
+                r.violation(construct, 'no handler catches StudentFacingError before... (no catch-all either): errors of functions are not recast at all',
+                            lib.loc(fi, tr))
             else:
-                r.violation('MathExpression.eval_function: except StudentFacingError', 'handler missing: a StudentFacingError raised '
-                            'by a function (e.g. a domain error) is recast as a generic FunctionEvalError', lib.loc(fi, tr))
+                verdicts = []
+                for p in nf.decision_paths(sfh.body):
+                    feasible, unknown = True, False
+                    for g in p.guards:
+                        tv = _isinstance_truth_lib(g, sfh.name, 'StudentFacingError')
+                        if tv is False:
+                            feasible = False
+                            break
+                        if tv is None:
+                            unknown = True
+                    if not feasible:
+                        continue
+                    same = p.leaf.kind == 'raise' and (p.leaf.expr is None or (isinstance(p.leaf.expr, ast.Name) and p.leaf.expr.id == sfh.name))
+                    verdicts.append((same, unknown, p))
+                if not verdicts:
+                    r.undecided(construct, 'no path recognised for StudentFacingError', lib.loc(fi, sfh))
+                elif all(v[0] for v in verdicts):
+                    r.ok(construct, 're-raised unchanged before any recasting', lib.loc(fi, sfh))
+                elif any(not v[0] and not v[1] for v in verdicts):
+                    bad = [v for v in verdicts if not v[0] and not v[1]][0][2]
+                    r.violation(construct, 'a StudentFacingError raised by a function (e.g. a domain error) is recast as %s instead of being '
+                                're-raised unchanged' % (nf.exc_class_name(bad.leaf.expr) if bad.leaf.kind == 'raise' else 'a return value'),
+                                lib.loc(fi, bad.leaf.stmt or sfh))
+                else:
+                    r.undecided(construct, 'dispatch inside the handler not recognised', lib.loc(fi, sfh))
             for i, names in enumerate(order):
                 for j in range(i):
                     for a in order[j]:
@@ -616,26 +643,104 @@ def _expect_translation(r, idx, fi, tr, call, mapping, label):
         for n in lib.handler_class_names(h):
             handlers.setdefault(n, h)
     for src, dst in mapping.items():
-        h = handlers.get(src)
         construct = '%s: except %s' % (label, src)
+        # the first handler (in order) that catches src
+        h = None
+        for cand in tr.handlers:
+            names = lib.handler_class_names(cand)
+            if any(n == src or _builtin_subclass(src, n) for n in names):
+                h = cand
+                break
         if h is None:
             r.violation(construct, 'handler missing: %s raised by `%s` is no longer turned into %s' % (src, short(call, 50), dst),
                         lib.loc(fi, tr), expected='except %s: raise %s' % (src, dst))
             continue
+        err = h.name
         paths = nf.decision_paths(h.body)
         ok = True
+        decided = False
         for p in paths:
+            # keep only the paths an exception of class src can take (isinstance dispatch inside a merged handler)
+            feasible = True
+            unknown = False
+            for g in p.guards:
+                tv = _isinstance_truth(g, err, src)
+                if tv is False:
+                    feasible = False
+                    break
+                if tv is None:
+                    unknown = True
+            if not feasible:
+                continue
+            decided = True
             if p.leaf.kind != 'raise':
+                if _delegates_to_raising_helper(idx, fi, p):
+                    r.undecided(construct, 'delegates to a helper that always raises', lib.loc(fi, h))
+                    ok = None
+                    continue
                 ok = False
                 r.violation(construct, 'handler %s instead of raising %s' % ('returns a value' if p.leaf.kind == 'ret' else 'falls through', dst),
                             lib.loc(fi, h))
             elif nf.exc_class_name(p.leaf.expr) != dst:
+                if unknown:
+                    r.undecided(construct, 'a path with an unrecognised guard raises %s' % (nf.exc_class_name(p.leaf.expr) or 'the caught error'), lib.loc(fi, h))
+                    ok = None
+                    continue
                 ok = False
                 found = nf.exc_class_name(p.leaf.expr) or 'bare re-raise'
                 r.violation(construct, '%s is translated to %s instead of %s' % (src, found, dst), lib.loc(fi, p.leaf.stmt),
                             expected=dst, found=found)
-        if ok:
+        if not decided:
+            r.undecided(construct, 'no path of the handler recognised for %s' % src, lib.loc(fi, h))
+        elif ok:
             r.ok(construct, 'raises %s' % dst, lib.loc(fi, h))
+
+
+def _builtin_subclass(name, base):
+    cur = name
+    seen = set()
+    while cur and cur not in seen:
+        if cur == base:
+            return True
+        seen.add(cur)
+        cur = lib.BUILTIN_EXC_PARENTS.get(cur)
+    return base in ('BaseException',) and name != base
+
+
+def _isinstance_truth_lib(g, err, src):
+    """Same for a library class src (only equality / catch-all classes are decided)."""
+    neg = False
+    if isinstance(g, ast.UnaryOp) and isinstance(g.op, ast.Not):
+        neg = True
+        g = g.operand
+    if isinstance(g, ast.Call) and isinstance(g.func, ast.Name) and g.func.id == 'isinstance' and len(g.args) == 2 \
+            and isinstance(g.args[0], ast.Name) and (err is None or g.args[0].id == err):
+        classes = g.args[1].elts if isinstance(g.args[1], ast.Tuple) else [g.args[1]]
+        names = [unparse(c).split('.')[-1] for c in classes]
+        if any(n in (src, 'MITxError', 'Exception', 'BaseException') for n in names):
+            tv = True
+        elif all(n in lib.BUILTIN_EXC_PARENTS or n in ('ArithmeticError',) for n in names):
+            tv = False
+        else:
+            return None
+        return (not tv) if neg else tv
+    return None
+
+
+def _isinstance_truth(g, err, src):
+    """Truth of a handler guard for an exception of builtin class src: True / False / None (unknown)."""
+    neg = False
+    if isinstance(g, ast.UnaryOp) and isinstance(g.op, ast.Not):
+        neg = True
+        g = g.operand
+    if isinstance(g, ast.Call) and isinstance(g.func, ast.Name) and g.func.id == 'isinstance' and len(g.args) == 2 \
+            and isinstance(g.args[0], ast.Name) and (err is None or g.args[0].id == err):
+        classes = g.args[1].elts if isinstance(g.args[1], ast.Tuple) else [g.args[1]]
+        names = [unparse(c).split('.')[-1] for c in classes]
+        tv = any(_builtin_subclass(src, n) for n in names)
+        # library classes are never superclasses of builtin errors
+        return (not tv) if neg else tv
+    return None
 
 
 # ----------------------------------------------------------------------------- D6
